@@ -256,6 +256,11 @@ def _match_list(
 
 
 def _match_wildcard(node: ast.AST, template: Wildcard, ignore: Collection[str]) -> Tuple:
+    if node is None:
+        # An optional child that is absent, like the value of a bare return. A wildcard stands for
+        # some piece of code, and there is none.
+        return ()
+
     # Special case for ellipsis {{...}} pattern, which matches everything.
     if template.name == "Ellipsis_anything" and template.template is object:
         return (node,)
